@@ -613,13 +613,22 @@ class C02(Check):
                 for kind in A.KINDS:
                     if 'cats' in col and kind in ('sign', 'max_nulls'):
                         continue      # nothing categorical about them
-                    for enc in A.constraint_values(col, kind, tier):
+                    vals = A.constraint_values(col, kind, tier)
+                    if kind == 'type' and tier == 'quick':
+                        # the full list of type lists is run for every
+                        # column in the batched 'grid' layer
+                        vals = A.TYPE_VALUES_BASIC + [[t] for t in A.TYPES]
+                    for enc in vals:
                         yield {'L': 'single', 'col': col, 'kind': kind,
                                'val': enc}
         elif layer == 'grid':
             for col in A.columns(tier):
                 if in_single(col, tier):
-                    continue              # already done one by one
+                    # already done one by one (except, in quick, the full
+                    # list of type lists)
+                    if tier == 'quick':
+                        yield {'L': 'grid', 'col': col, 'kind': 'type'}
+                    continue
                 for kind in A.KINDS:
                     if 'cats' in col and kind in ('sign', 'max_nulls'):
                         continue
